@@ -27,8 +27,8 @@ def gen_cases(ctx, n):
         dim = r.choice([2, 3, 5, 8])
         kind = r.choice(["micro", "micro", "early", "euclid"])
         c = {"id": cid, "dim": dim, "kind": kind, "num_tune": r.choice([0, 2, 5, 10]), "num_draws": r.choice([2, 4]),
-             "step_size": r.choice([0.125, 0.25, 0.5, 0.3]), "L": r.choice([0.5, 1.0, 2.0, 3.0]),
-             "subsample_frequency": r.choice([1.0, 1.0, 0.5, 0.0, 0.26]), "dynamic_step_size": r.random() < 0.7,
+             "step_size": r.choice([0.125, 0.25, 0.5, 0.3, 0.3, 0.37, 0.429, 0.21]), "L": r.choice([0.5, 1.0, 2.0, 3.0, 1.3, 2.7]),
+             "subsample_frequency": r.choice([1.0, 1.0, 0.5, 0.0, 0.26, 0.5, 0.3, 0.7]), "dynamic_step_size": r.random() < 0.7,
              "seed": r.randint(1, 10 ** 6), "prec": [r.choice([0.5, 1.0, 2.0]) for _ in range(dim)],
              "switch_fraction": r.choice([0.3, 0.5, 0.0, 1.0])}
         if r.random() < 0.25:
